@@ -481,9 +481,10 @@ def shape_case(col, rng):
         col.count('rebuilt_identity_checks')
 
 
-def cyclic_case(col, rng):
+def cyclic_case(col, rng, i=None):
     """self-referential containers in argument position keep their cyclic shape"""
-    kind = rng.choice(['list', 'dict', 'list-in-dict', 'two-cycle'])
+    kinds = ['list', 'dict', 'list-in-dict', 'two-cycle', 'cycle-through-a-node-met-twice', 'dict-cycle-one-list-under-two-keys', 'long-cycle-with-chord']
+    kind = rng.choice(kinds) if i is None else kinds[i % len(kinds)]
     if kind == 'list':
         lit = [T['k'], 'lit']; lit.append(lit)
         want = [['kv'], 'lit']; want.append(want)
@@ -493,6 +494,17 @@ def cyclic_case(col, rng):
     elif kind == 'list-in-dict':
         inner = [1]; lit = {'in': inner, 'v': T['n'][1]}; inner.append(lit)
         winner = [1]; want = {'in': winner, 'v': 2}; winner.append(want)
+    elif kind == 'cycle-through-a-node-met-twice':
+        # a = [b, b], b = [a, T]: b is met a second time after it has been completed
+        a = []; b = [a, T['k']]; a.extend([b, b]); lit = a
+        wa = []; wb = [wa, ['kv']]; wa.extend([wb, wb]); want = wa
+    elif kind == 'dict-cycle-one-list-under-two-keys':
+        lit = {}; l = [lit, T['n'][1]]; lit['p'] = l; lit['q'] = l
+        want = {}; wl = [want, 2]; want['p'] = wl; want['q'] = wl
+    elif kind == 'long-cycle-with-chord':
+        # a -> b -> c -> a, and a also refers to c directly (after b, which completes c first)
+        a, b, c = ['a'], ['b'], ['c', T['k']]; a.append(b); b.append(c); c.append(a); a.append(c); lit = a
+        wa, wb, wc = ['a'], ['b'], ['c', ['kv']]; wa.append(wb); wb.append(wc); wc.append(wa); wa.append(wc); want = wa
     else:
         a, b = [T['k']], ['b']; a.append(b); b.append(a); lit = a
         wa, wb = [['kv']], ['b']; wa.append(wb); wb.append(wa); want = wa
@@ -566,8 +578,8 @@ def run(ctx):
         tracer.uninstall()
         for i in range(ctx.n(600, 6000)):
             shape_case(col, rng)
-        for i in range(ctx.n(20, 100)):
-            cyclic_case(col, rng)
+        for i in range(ctx.n(21, 105)):
+            cyclic_case(col, rng, i)
     finally:
         tracer.uninstall()
         if watch is not None:
